@@ -45,7 +45,12 @@ func ListCar(c *cli.Context) error {
 		defer inStream.Close()
 	}
 
-	rd, err := carv2.NewBlockReader(inStream)
+	var in io.Reader = inStream
+	if inStream == os.Stdin {
+		// stdin may be a pipe: it is an io.Seeker by type but cannot seek
+		in = struct{ io.Reader }{inStream}
+	}
+	rd, err := carv2.NewBlockReader(in)
 	if err != nil {
 		return err
 	}
